@@ -91,9 +91,10 @@ func (c *underefChecker) isPtrRecvMethodCall(fn *ast.Ident) bool {
 
 func (c *underefChecker) underef(x *ast.ParenExpr) ast.Expr {
 	// If there is only 1 deref, can remove parenthesis,
-	// otherwise can remove StarExpr only.
+	// otherwise can remove StarExpr only. Other unary operands
+	// (<-ch, &x) need the parenthesis as well: <-ch.f is <-(ch.f).
 	dereferenced := x.X.(*ast.StarExpr).X
-	if astp.IsStarExpr(dereferenced) {
+	if astp.IsStarExpr(dereferenced) || astp.IsUnaryExpr(dereferenced) {
 		return &ast.ParenExpr{X: dereferenced}
 	}
 	return dereferenced
